@@ -164,6 +164,7 @@ func (e *BExpr) Canon() (string, bool) {
 // BoolCtx turns values of one interner into boolean expressions.
 type BoolCtx struct {
 	Conds map[string]*Bool // gate key -> comparison
+	O     *Ops             // optional: transfer functions used to put operands into one form
 	depth int
 }
 
@@ -172,11 +173,29 @@ func (c *BoolCtx) BitOf(l *Lin, k int) *BExpr {
 	if k >= l.W {
 		return BConst(false)
 	}
+	// the top bit of X - Y, both below half the range, is the borrow: X < Y
+	if k == l.W-1 && k > 0 {
+		if e := c.signOfDifference(l); e != nil {
+			return e
+		}
+	}
 	if k+1 < l.W {
 		l = linTrunc(l, k+1)
 	}
 	if l.IsConst() {
 		return BConst(l.C>>uint(k)&1 == 1)
+	}
+	// bit 0 of a sum has no carries: the parity of the odd terms
+	if k == 0 && len(l.T) > 0 {
+		e := BConst(l.C&1 == 1)
+		for _, t := range l.T {
+			if t.K&1 == 1 {
+				e = BXor(e, c.atomBit(t.A, 0))
+			}
+		}
+		if len(l.T) > 1 || l.C&1 == 1 {
+			return e
+		}
 	}
 	if len(l.T) == 1 && l.C == 0 {
 		t := l.T[0]
@@ -198,6 +217,53 @@ func (c *BoolCtx) BitOf(l *Lin, k int) *BExpr {
 		return e
 	}
 	return BVar(fmt.Sprintf("bit(%s,%d)", l.Key(), k))
+}
+
+// LinInt wraps a form as a value with whatever interval the form implies.
+func LinInt(l *Lin) *Int {
+	v := &Int{W: l.W, Bits: topBits(l.W), Lo: 0, Hi: mask(l.W), Lin: l}
+	return v.reduce()
+}
+
+// linName names a form in a proposition: the key, tagged with the width when the
+// form may wrap at it (then the same key at another width is a different quantity).
+func linName(l *Lin) string {
+	if _, hi, ok := l.rangeNoWrap(); ok && hi <= mask(l.W) {
+		return l.Key()
+	}
+	return fmt.Sprintf("%s/%d", l.Key(), l.W)
+}
+
+func (c *BoolCtx) signOfDifference(l *Lin) *BExpr {
+	w := l.W
+	if w < 2 || w > 63 {
+		return nil
+	}
+	half := uint64(1) << uint(w-1)
+	x, y := &Lin{W: w}, &Lin{W: w}
+	if l.C < half {
+		x.C = l.C
+	} else {
+		y.C = (-l.C) & mask(w)
+	}
+	neg := false
+	for _, t := range l.T {
+		if t.K < half {
+			x.T = append(x.T, t)
+		} else {
+			y.T = append(y.T, LinTerm{t.A, (-t.K) & mask(w)})
+			neg = true
+		}
+	}
+	if !neg {
+		return nil
+	}
+	_, xh, ok1 := x.rangeNoWrap()
+	_, yh, ok2 := y.rangeNoWrap()
+	if !ok1 || !ok2 || xh >= half || yh >= half {
+		return nil
+	}
+	return c.CmpExpr(&CmpInfo{Op: "<", X: LinInt(x), Y: LinInt(y)})
 }
 
 func (c *BoolCtx) packedBit(l *Lin, k int) *BExpr {
@@ -286,6 +352,20 @@ func (c *BoolCtx) ZeroExpr(x *Int) *BExpr {
 	if x.Lin.C != 0 && len(x.Lin.T) > 0 {
 		return c.CmpExpr(&CmpInfo{Op: "==", X: x, Y: NewConst(x.W, 0, false)})
 	}
+	// (T & low-mask) == 0 is T == 0 modulo the mask's width
+	if len(x.Lin.T) == 1 && x.Lin.T[0].K == 1 {
+		if at := x.Lin.T[0].A; at.Op == "and" && len(at.Args) == 2 {
+			for i := 0; i < 2; i++ {
+				m, other := at.Args[i], at.Args[1-i]
+				if m.IsConst() && m.C != 0 && (m.C+1)&m.C == 0 && !other.IsConst() {
+					n := bits.Len64(m.C)
+					if n < other.W {
+						return c.ZeroExpr(LinInt(linTrunc(other, n)))
+					}
+				}
+			}
+		}
+	}
 	// only few bit positions can be non-zero: all of them must be clear
 	var pos []int
 	for i := 0; i < x.W; i++ {
@@ -310,7 +390,7 @@ func (c *BoolCtx) ZeroExpr(x *Int) *BExpr {
 		}
 		return e
 	}
-	return BVar("zero(" + x.Lin.Key() + ")")
+	return BVar("zero(" + linName(x.Lin) + ")")
 }
 
 // CondExpr is the boolean expression of the branch condition registered under key.
@@ -372,7 +452,7 @@ func (c *BoolCtx) CmpExpr(cm *CmpInfo) *BExpr {
 		if cm.Sgn {
 			n = "slt"
 		}
-		return BVar(n + "(" + a.Lin.Key() + "," + b.Lin.Key() + ")")
+		return BVar(n + "(" + linName(a.Lin) + "," + linName(b.Lin) + ")")
 	}
 	switch op {
 	case "==", "!=":
@@ -399,7 +479,7 @@ func (c *BoolCtx) CmpExpr(cm *CmpInfo) *BExpr {
 				e = c.ZeroExpr(x)
 			default:
 				// a single possibly-set bit compared with that bit's value
-				e = BVar("eq(" + x.Lin.Key() + "," + y.Lin.Key() + ")")
+				e = BVar("eq(" + linName(x.Lin) + "," + linName(y.Lin) + ")")
 				if yc&(yc-1) == 0 {
 					only := true
 					k := bits.TrailingZeros64(yc)
@@ -414,7 +494,22 @@ func (c *BoolCtx) CmpExpr(cm *CmpInfo) *BExpr {
 				}
 			}
 		} else {
-			a, b := x.Lin.Key(), y.Lin.Key()
+			a, b := linName(x.Lin), linName(y.Lin)
+			// equality of the top bits of two terms, written with a mask or with a shift
+			if na, ta, ok1 := highPart(x.Lin); ok1 {
+				if nb, tb, ok2 := highPart(y.Lin); ok2 && na == nb && ta.W == tb.W {
+					if c.O != nil {
+						// evaluate both as shifts, so that a shift the transfer
+						// functions see through (hi byte of lo+256*hi) has one name
+						sa := c.O.Shr(c.O.Rebuild(ta, nil), NewConst(ta.W, uint64(na), false), false)
+						sb := c.O.Shr(c.O.Rebuild(tb, nil), NewConst(tb.W, uint64(nb), false), false)
+						a, b = linName(sa.Lin), linName(sb.Lin)
+					} else {
+						a = fmt.Sprintf("hi%d(%s)", na, linName(ta))
+						b = fmt.Sprintf("hi%d(%s)", nb, linName(tb))
+					}
+				}
+			}
 			if a > b {
 				a, b = b, a
 			}
@@ -467,6 +562,11 @@ func IteConds(l *Lin, set map[string]bool) {
 // differ from the one l was built in: base atoms are re-interned by key), resolving
 // gated merges whose condition is decided by assign.
 func (o Ops) Rebuild(l *Lin, assign map[string]bool) *Int {
+	return o.RebuildSubst(l, assign, nil)
+}
+
+// RebuildSubst is Rebuild with some atoms (by key) replaced by constants.
+func (o Ops) RebuildSubst(l *Lin, assign map[string]bool, subst map[string]uint64) *Int {
 	memo := map[*Atom]*Int{}
 	var atomVal func(a *Atom) *Int
 	var linVal func(l *Lin) *Int
@@ -560,6 +660,11 @@ func (o Ops) Rebuild(l *Lin, assign map[string]bool) *Int {
 			return v
 		}
 		var v *Int
+		if c, ok := subst[a.Key]; ok {
+			v = NewConst(a.W, c, false)
+			memo[a] = v
+			return v
+		}
 		switch {
 		case a.IteT != nil:
 			if side, ok := assign[a.IteCond]; ok {
@@ -639,4 +744,63 @@ func (e *BExpr) Assign(env map[string]bool) *BExpr {
 		r.A[i] = a.Assign(env)
 	}
 	return r
+}
+
+
+// BitAtoms lists the derived atoms of l (at any operand depth) whose value is 0 or 1.
+func BitAtoms(l *Lin) []*Atom {
+	var out []*Atom
+	seen := map[*Atom]bool{}
+	var walk func(l *Lin)
+	walk = func(l *Lin) {
+		for _, t := range l.T {
+			a := t.A
+			if seen[a] {
+				continue
+			}
+			seen[a] = true
+			if a.Hi <= 1 && a.Op != "" && a.IteT == nil {
+				out = append(out, a)
+			}
+			for _, x := range a.Args {
+				walk(x)
+			}
+			if a.IteT != nil {
+				walk(a.IteT)
+				walk(a.IteF)
+			}
+		}
+	}
+	walk(l)
+	return out
+}
+
+
+// highPart recognises T & ^(2^n-1) (at T's width) and T >> n: both are determined by,
+// and determine, the bits of T from n upwards.
+func highPart(l *Lin) (n int, t *Lin, ok bool) {
+	if len(l.T) != 1 || l.C != 0 || l.T[0].K != 1 {
+		return 0, nil, false
+	}
+	a := l.T[0].A
+	switch {
+	case a.Op == "and" && len(a.Args) == 2:
+		for i := 0; i < 2; i++ {
+			m, other := a.Args[i], a.Args[1-i]
+			if !m.IsConst() || other.IsConst() {
+				continue
+			}
+			low := ^m.C & mask(other.W)
+			if low != 0 && (low+1)&low == 0 && m.C&mask(other.W) == mask(other.W)&^low {
+				return bits.Len64(low), other, true
+			}
+		}
+	case strings.HasPrefix(a.Op, "shr") && len(a.Op) > 3 && len(a.Args) == 1:
+		var k int
+		fmt.Sscanf(a.Op[3:], "%d", &k)
+		if k > 0 && k < a.Args[0].W {
+			return k, a.Args[0], true
+		}
+	}
+	return 0, nil, false
 }
